@@ -129,6 +129,7 @@ class Problem_f:
 
     def __init__(self, p):
         self.orders, self.exact, self.N, self.n_par = p.orders, False, p.N, p.n_par
+        self.terms_f, self.keep = p.terms_f, p.keep
 
 
 def finalize(c, tier, evaluations, distinct):
